@@ -116,4 +116,63 @@ def runReqs (cfg : HCfg) (cmiu fuel : Nat) : HNet → List Bytes → List (Optio
     let r := runReqs cfg cmiu fuel { n1 with cst := .idle } rest
     (result n1 :: r.1, r.2)
 
+/-- the handover server on any sequence of incoming messages -/
+def srvFeed (cfg : HCfg) : HS → List Bytes → HS × List Bytes × List Bytes
+  | st, [] => (st, [], [])
+  | st, m :: rest =>
+    if swait st then
+      let r := srvOnRecv cfg st m
+      let r2 := srvFeed cfg r.1 rest
+      (r2.1, r.2.1 ++ r2.2.1, r.2.2 ++ r2.2.2)
+    else srvFeed cfg st rest
+
+/-- `recv_octets` on whatever a peer has queued: result and what is left in the socket -/
+def cliFeed (complete : Bytes → Bool) : HC → List Bytes → HC × List Bytes
+  | st, [] => (st, [])
+  | st, m :: rest =>
+    if cwait st then cliFeed complete (cliOnRecv complete st m).1 rest
+    else (st, m :: rest)
+
+/-! ## NDEF messages as record lists
+
+What `ndef.message_encoder` produces, at the level `ndefWalk` reads: a flags octet (MB, ME, CF,
+SR, IL, TNF), TYPE LENGTH, PAYLOAD LENGTH (1 octet with SR, else 4), ID LENGTH (only with IL),
+then TYPE, ID, PAYLOAD.  MB is set on the first record, ME on the last one only. -/
+
+structure Rec where
+  tnf : Nat
+  /-- chunk flag (not used by ndeflib's encoder, not looked at by the walk) -/
+  cf : Bool := false
+  /-- short record: 1-octet payload length -/
+  sr : Bool
+  typ : Bytes
+  /-- `some id`: IL flag set, ID LENGTH and ID present -/
+  id : Option Bytes
+  payload : Bytes
+  deriving DecidableEq, Repr, Inhabited
+
+def Rec.wf (r : Rec) : Prop :=
+  r.tnf < 8 ∧ r.typ.length < 256 ∧ (r.id.getD []).length < 256 ∧
+  (if r.sr then r.payload.length < 256 else r.payload.length < 2 ^ 32)
+
+instance (r : Rec) : Decidable r.wf := by unfold Rec.wf; infer_instance
+
+def flagsOf (mb me : Bool) (r : Rec) : Nat :=
+  (if mb then 128 else 0) + (if me then 64 else 0) + (if r.cf then 32 else 0) +
+  (if r.sr then 16 else 0) + (if r.id.isSome then 8 else 0) + r.tnf
+
+def encRec (mb me : Bool) (r : Rec) : Bytes :=
+  flagsOf mb me r :: r.typ.length ::
+    ((if r.sr then [r.payload.length] else toBE 4 r.payload.length) ++
+     (match r.id with | some i => [i.length] | none => []) ++
+     (r.typ ++ ((r.id.getD []) ++ r.payload)))
+
+def encMsgAux (mb : Bool) : List Rec → Bytes
+  | [] => []
+  | [r] => encRec mb true r
+  | r :: r' :: rs => encRec mb false r ++ encMsgAux false (r' :: rs)
+
+/-- `b"".join(ndef.message_encoder(records))` -/
+def encMsg (rs : List Rec) : Bytes := encMsgAux true rs
+
 end NfcVerif.Handover
